@@ -39,7 +39,8 @@ RULE = ('(a) generated peer populations (0..120 peers: public/private/loopback/l
         'never raises; ports None or integers 1..65535; is_public implies the host is a valid '
         'hostname (not localhost) or a global non-private address. Non-trivial = the dictionary has '
         'a hosts dict with at least one key. distinct = distinct generated cases.' 
-        '(c) the real PeerManager._should_drop_peer / _verify_peer against a generated remote (per request: conformant answer or one way of failing the check - wrong version shape, height off by 6+/non-integer, other chain\'s header, wrong genesis hash, own host unlisted, malformed peers list - or RPC error / time-out / connection loss; per-request latencies 0..3 s so the order of completion varies; up to four connection attempts; peer previously never / recently / long ago verified), then on_peers_subscribe: last_good may become now only if some connection passed every check; a peer that failed a check with no transport trouble is marked bad and not advertised. Non-trivial (c) = at least four requests were answered and the expected outcome is good or bad.')
+        '(c) the real PeerManager._should_drop_peer / _verify_peer against a generated remote (per request: conformant answer or one way of failing the check - wrong version shape, height off by 6+/non-integer, other chain\'s header, wrong genesis hash, own host unlisted, malformed peers list - or RPC error / time-out / connection loss; per-request latencies 0..3 s so the order of completion varies; up to four connection attempts; peer previously never / recently / long ago verified), then on_peers_subscribe: last_good may become now only if some connection passed every check; a peer that failed a check with no transport trouble is marked bad and not advertised. Non-trivial (c) = at least four requests were answered and the expected outcome is good or bad.' 
+        'c19.fuzz_features: the feature-dictionary grammar steered by libFuzzer coverage (pbt/fuzz.py), same oracle.')
 ASSUMPTIONS = ['the stdlib ipaddress classification (is_global, is_private, ...) is the definition '
                'of routable / private', 'a JSON true port is numerically 1 and counts as valid '
                '(bool is an int in Python); hostnames that merely resolve to private space are '
